@@ -729,6 +729,29 @@ def gen_C19(c, rng, tier):
                 elif rng.random() < 0.3:
                     s, cl3 = mpi_variant(rng, s, info); cl += cl3
                 c.add(t, 'run', s, classes=cl, info=info)
+            for _ in range(scale(tier, 6, 30)):
+                # an MPI run started from a checkpoint that already holds results (in memory or reloaded): its first iteration must
+                # sample with the refinement of the last stored result - once
+                iters = rng.choice([3, 4])
+                s, cl, info = rand_run(rng, fmt, kind, iters=iters, calls=[6, 10, 16], poly=True, trace=1, finite_only=True, dists=[])
+                k = rng.randint(1, iters - 1)
+                P = rng.choice([1, 2, 3, 5]); perm = list(range(P)); rng.shuffle(perm)
+                ops = [['run', info['calls'][:k]]] + ([['reload']] if rng.random() < 0.5 else []) + [['mpi', info['calls'][k:], P, perm], ['dump']]
+                s = small_bins([e for e in s if e[0] != 'ops'] + [['ops', ops]])
+                c.add(t, 'run', s, classes=cl + ['mpi_shim', 'mpi_from_checkpoint_with_results', 'world_%d' % P], info=info)
+            if kind == 'vegas':
+                for _ in range(scale(tier, 8, 40)):
+                    # an iteration whose non-zero values cancel exactly (sum 0, adjustment data not 0): the grid must still be refined
+                    iters = rng.choice([3, 4]); n = rng.choice([6, 10])
+                    v = Fraction(rng.randint(1, 9), rng.choice([1, 2]))
+                    kc = rng.randrange(iters - 1)
+                    tab = []
+                    for i in range(iters):
+                        tab += [v, -v] * (n // 2) if i == kc else [Fraction(rng.randint(1, 9), 2) for _ in range(n)]
+                    bins = rng.choice([2, 4, 8])
+                    s = spec_run('vegas', fmt, dims=1, seed=rng.getrandbits(32), chk=['default', bins, fmt.rtok(Fraction(3, 2))], f=['tab', toks(fmt, [fmt.round(x) for x in tab])],
+                                 trace=1, ops=[['run', [n] * iters], ['dump']])
+                    c.add(t, 'run', s, classes=['kind_vegas', 'cancelling_iteration'], info={'kind': 'vegas', 'dims': 1, 'channels': 1, 'calls': [n] * iters})
             for _ in range(scale(tier, 4, 30)):
                 # the text of a checkpoint that has no result yet (user grid / weights, parameters that need all digits), then run
                 iters = rng.choice([2, 3])
